@@ -388,16 +388,16 @@ Proof.
 Qed.
 
 Lemma create_from_factory_ok N emb d v : create_from_factory N emb d = Ok v ->
-  exists s name cls e0 e',
-    assoc type_key d = Some (DStr s) /\ In (name, cls) (n_names N emb) /\ str_is name s = true /\
+  exists s cls e0 e',
+    assoc type_key d = Some (DStr s) /\ class_of_type N emb (DStr s) = Ok cls /\
     new_instance N cls = Ok (VStruct cls e0) /\ copy_to N cls [type_ignore_key] d e0 = Ok e' /\ v = VStruct cls (auto_encode e').
 Proof.
   unfold create_from_factory. destruct (assoc type_key d) as [t|] eqn:Et; [|discriminate]. intros H.
   apply bind_ok in H. destruct H as [t' [Ht' H]]. apply bind_ok in H. destruct H as [cls [Hc H]]. apply bind_ok in H. destruct H as [inst [Hi H]].
   destruct inst as [| | |c e0|]; try discriminate. apply bind_ok in H. destruct H as [e' [He H]]. inversion H; subst.
-  apply class_of_type_ok in Hc. destruct Hc as [s [name [-> [Hin Hs]]]]. apply conv_value_to_str in Ht'. subst t.
+  destruct (class_of_type_ok _ _ _ _ Hc) as [s [name [-> _]]]. apply conv_value_to_str in Ht'. subst t.
   assert (c = cls) by (unfold new_instance, type_fuel_d in Hi; apply default_of_struct in Hi; destruct Hi as [? [_ [? _]]]; assumption). subst c.
-  exists s, name, cls, e0, e'. auto 10.
+  exists s, cls, e0, e'. auto 10.
 Qed.
 
 (* keys other than `type` are live for the top-level copy *)
@@ -461,7 +461,8 @@ Theorem create_core_holds N emb ident d v : NoDup (map fst d) -> create_core N e
        vget v n = option_map encode_str (assoc n e0)).
 Proof.
   intros Hnd H d1. unfold create_core in H. fold d1 in H. apply create_from_factory_ok in H.
-  destruct H as [s [name [cls [e0 [e' [Ht [Hin [Hs [Hi [Hc Hv]]]]]]]]]]. subst v.
+  destruct H as [s [cls [e0 [e' [Ht [Hcls [Hi [Hc Hv]]]]]]]]. subst v.
+  destruct (class_of_type_ok _ _ _ _ Hcls) as [s' [name [Es [Hin Hs]]]]. inversion Es; subst s'.
   assert (Hnd1 : NoDup (map fst d1)) by (apply dict_set_nodup; exact Hnd).
   unfold copy_to in Hc.
   exists s, name, cls, e0, (auto_encode e'). change type_key with "type" in Ht.
@@ -577,18 +578,332 @@ Theorem create_rejects N emb autosort ident d :
   forall v, create N emb autosort ident d <> Ok v.
 Proof.
   intros d1 Hbad v H. apply create_core_of_create in H. destruct H as [v0 H]. unfold create_core in H. fold d1 in H.
-  apply create_from_factory_ok in H. destruct H as [s [name [cls [e0 [e' [Ht [Hin [Hs [Hi [Hc _]]]]]]]]]]. change type_key with "type" in Ht.
+  apply create_from_factory_ok in H. destruct H as [s [cls [e0 [e' [Ht [Hcl [Hi [Hc _]]]]]]]]. change type_key with "type" in Ht.
   destruct Hbad as [Hnone|[[s' [Ht' Hall]]|[s' [cls' [k [dv [Ht' [Hcls [Hkd [Hne Hb]]]]]]]]]].
   - congruence.
-  - rewrite Ht in Ht'. inversion Ht'; subst s'. rewrite (Hall (name, cls) Hin) in Hs. discriminate.
-  - rewrite Ht in Ht'. inversion Ht'; subst s'.
-    assert (cls' = cls).
-    { unfold class_of_type in Hcls. destruct (find _ (n_names N emb)) as [[name' c']|] eqn:E; [|discriminate]. inversion Hcls; subst c'.
-      (* the first matching entry of the mapping is the class that was instantiated *)
-      unfold new_instance in Hi. clear - E Hin Hs Hi Hc.
-      (* create_from_factory_ok returned SOME entry of the mapping that matches; the model uses find, i.e. the first one *)
-      admit_placeholder. }
+  - rewrite Ht in Ht'. inversion Ht'; subst s'. destruct (class_of_type_ok _ _ _ _ Hcl) as [s' [name [Es [Hin Hs]]]]. inversion Es; subst s'.
+    pose proof (Hall (name, cls) Hin) as Hf. cbn [fst] in Hf. congruence.
+  - rewrite Ht in Ht'. inversion Ht'; subst s'. assert (cls' = cls) by congruence.
     subst cls'. unfold copy_to in Hc. pose proof (copy_ok_entries N _ cls _ d1 e0 e' Hc) as Hall. rewrite Forall_forall in Hall.
     specialize (Hall (k, dv) Hkd (live_not_type k Hne)). cbn [fst snd] in Hall. destruct Hall as [Hcomp [f [x [Hm Hx]]]].
     exact (bad_entry_no_value N cls k dv Hb Hcomp f x Hm Hx).
+Qed.
+
+(* ---------- autosort ---------- *)
+Lemma mapM_assoc {A B} (G : string * A -> result B) e : forall e' n a,
+  mapM (fun p => bind (G p) (fun x => Ok (fst p, x))) e = Ok e' -> assoc n e = Some a ->
+  exists x, G (n, a) = Ok x /\ assoc n e' = Some x.
+Proof.
+  induction e as [|p r IH]; intros e' n a H Ha; [discriminate|].
+  cbn [mapM] in H. apply bind_ok in H. destruct H as [y [Hy H]]. apply bind_ok in H. destruct H as [t [Ht H]]. inversion H; subst e'. clear H.
+  apply bind_ok in Hy. destruct Hy as [x [Hx Hy]]. inversion Hy; subst y. clear Hy.
+  unfold assoc in *. cbn [find fst] in *. destruct (String.eqb (fst p) n) eqn:E.
+  - apply String.eqb_eq in E. inversion Ha; subst a. exists x. split; [|reflexivity]. destruct p; cbn in *; subst; exact Hx.
+  - exact (IH t n a Ht Ha).
+Qed.
+
+Lemma keys_of_values_length tm a l : forall ks, keys_of_values tm a l = Ok ks -> length ks = length l.
+Proof.
+  induction l as [|x r IH]; cbn [keys_of_values]; intros ks H; [inversion H; reflexivity|].
+  apply bind_ok in H. destruct H as [[kv|] [_ H]]; [|discriminate]. apply bind_ok in H. destruct H as [t [Ht H]]. inversion H; subst. cbn. f_equal. auto.
+Qed.
+
+Lemma map_fst_combine_eq {A B} (ks : list A) (l : list B) : length ks = length l -> map fst (combine ks l) = ks.
+Proof. revert l. induction ks as [|k r IH]; intros [|x l] H; cbn in *; try discriminate; [reflexivity|]. f_equal. apply IH. lia. Qed.
+
+(* one keyed array member of a sorted object *)
+Lemma sort_value_keyed N k cls e v' s n f a key l :
+  sort_value N (S k) (VStruct cls e) = Ok v' -> lookup_struct (n_tm N) cls = Some s ->
+  find_field (non_const (s_fields s)) n = Some f -> f_type f = FArray a -> a_sort_key a = Some key -> assoc n e = Some (VArr l) ->
+  exists ks, keys_of_values (n_tm N) a l = Ok ks /\ vget v' n = Some (VArr (sort_values ks l)).
+Proof.
+  intros H Hs Hf Ht Hk Ha. cbn [sort_value] in H. rewrite Hs in H. apply bind_ok in H. destruct H as [e' [He H]]. inversion H; subst v'. clear H.
+  eapply mapM_assoc in He; [|exact Ha]. destruct He as [x [Hx Hax]]. cbn [fst snd] in Hx. rewrite Hf, Ht, Hk in Hx.
+  apply bind_ok in Hx. destruct Hx as [ks [Hks Hx]]. inversion Hx; subst x. exists ks. split; [exact Hks|]. rewrite vget_assoc. exact Hax.
+Qed.
+
+Lemma sorted_strict ks (l : list value) : length ks = length l -> shape_ok ks -> NoDup ks ->
+  StronglySorted (fun p q => key_lt_spec (fst p) (fst q) = true) (sort_pairs key_lt (combine ks l)).
+Proof.
+  intros Hl Hs Hn. apply sort_strict_now; unfold distinct_keys; rewrite (map_fst_combine_eq ks l Hl); assumption.
+Qed.
+
+(* ---------- what extend touches ---------- *)
+Lemma vget_vset_other v m x n : n <> m -> vget (vset v m x) n = vget v n.
+Proof.
+  intros Hne. destruct v; try reflexivity. rewrite !vget_assoc. apply (assoc_upd_other fs m n x). congruence.
+Qed.
+Lemma vget_vset_same v m x old : vget v m = Some old -> vget (vset v m x) m = Some x.
+Proof.
+  destruct v; try discriminate. rewrite !vget_assoc. apply (assoc_upd_same fs m x old).
+Qed.
+
+Lemma sym_extend_spec N ident v v' : sym_extend N ident v = Ok v' ->
+  v' = v \/ exists x, v' = vset v "id" x.
+Proof.
+  unfold sym_extend.
+  destruct (enum_member N "TransactionType" "NAMESPACE_REGISTRATION") as [t_ns|]; [|discriminate].
+  destruct (enum_member N "TransactionType" "MOSAIC_DEFINITION") as [t_md|]; [|discriminate].
+  destruct (enum_member N "NamespaceRegistrationType" "CHILD") as [child|]; [|discriminate].
+  destruct (vget v "type") as [[t| | | |]|]; try (intros H; inversion H; left; reflexivity).
+  destruct (t =? t_ns).
+  - intros H. apply bind_ok in H. destruct H as [parent [_ H]]. destruct (vget v "name") as [[|nm| | |]|]; try discriminate. inversion H. right. eauto.
+  - destruct (t =? t_md); [|intros H; inversion H; left; reflexivity].
+    destruct (vget v "signer_public_key") as [[|pk| | |]|]; try discriminate. destruct (vget v "nonce") as [[nonce| | | |]|]; try discriminate.
+    intros H. apply bind_ok in H. destruct H as [addr [_ H]]. inversion H. right. eauto.
+Qed.
+
+Lemma sym_extend_other N ident v v' n : sym_extend N ident v = Ok v' -> n <> "id" -> vget v' n = vget v n.
+Proof.
+  intros H Hne. apply sym_extend_spec in H. destruct H as [->|[x ->]]; [reflexivity|]. apply vget_vset_other. exact Hne.
+Qed.
+
+Lemma nem_extend_other N v v' n : nem_extend N v = Ok v' -> n <> "message" -> vget v' n = vget v n.
+Proof.
+  unfold nem_extend. destruct (enum_member N "TransactionType" "TRANSFER") as [t_tr|]; [|discriminate].
+  destruct (vget v "type") as [[t| | | |]|]; try (intros H; inversion H; reflexivity).
+  destruct (t =? t_tr); [|intros H; inversion H; reflexivity].
+  destruct (vget v "message") as [[| | |mc me|]|]; try discriminate; intros H Hne; inversion H; try reflexivity.
+  apply vget_vset_other. exact Hne.
+Qed.
+
+Lemma extend_other N ident v v' n : extend N ident v = Ok v' -> n <> "id" -> n <> "message" -> vget v' n = vget v n.
+Proof.
+  unfold extend. destruct (n_flavor N); intros H H1 H2; [eapply sym_extend_other|eapply nem_extend_other]; eauto.
+Qed.
+
+Lemma create_stages N emb autosort ident d v' : create N emb autosort ident d = Ok v' ->
+  exists v0 v1, create_core N emb ident d = Ok v0 /\ (if autosort then sort_value N type_fuel_d v0 else Ok v0) = Ok v1 /\ extend N ident v1 = Ok v'.
+Proof.
+  unfold create. intros H. apply bind_ok in H. destruct H as [v0 [H0 H]]. apply bind_ok in H. destruct H as [v1 [H1 H]]. eauto.
+Qed.
+
+(* with automatic sorting on, every keyed array of the created transaction is the stable sort of what the descriptor gave,
+   strictly ascending under the declared comparer when the keys are distinct *)
+Theorem autosort_canonical N emb ident d v' : create N emb true ident d = Ok v' ->
+  exists cls e0, create_core N emb ident d = Ok (VStruct cls e0) /\
+  forall s n f a key l, lookup_struct (n_tm N) cls = Some s -> find_field (non_const (s_fields s)) n = Some f ->
+    f_type f = FArray a -> a_sort_key a = Some key -> assoc n e0 = Some (VArr l) -> n <> "id" -> n <> "message" ->
+    exists ks, keys_of_values (n_tm N) a l = Ok ks /\
+               vget v' n = Some (VArr (map snd (sort_pairs key_lt (combine ks l)))) /\
+               (shape_ok ks -> NoDup ks -> StronglySorted (fun p q => key_lt_spec (fst p) (fst q) = true) (sort_pairs key_lt (combine ks l))).
+Proof.
+  intros H. apply create_stages in H. destruct H as [v0 [v1 [H0 [H1 H2]]]].
+  assert (Hc := H0). unfold create_core in Hc. apply create_from_factory_ok in Hc. destruct Hc as [s0 [cls [e0 [e' [_ [_ [_ [_ Hv]]]]]]]]. subst v0.
+  exists cls, (auto_encode e'). split; [exact H0|]. intros s n f a key l Hs Hf Ht Hk Ha Hn1 Hn2.
+  unfold type_fuel_d in H1. destruct (sort_value_keyed _ _ _ _ _ _ _ _ _ _ _ H1 Hs Hf Ht Hk Ha) as [ks [Hks Hg]].
+  exists ks. split; [exact Hks|]. split.
+  - rewrite (extend_other _ _ _ _ n H2 Hn1 Hn2). exact Hg.
+  - intros Hshape Hnd. apply sorted_strict; [eapply keys_of_values_length; eauto|exact Hshape|exact Hnd].
+Qed.
+
+(* ---------- artifact ids ---------- *)
+Lemma sym_extend_namespace N ident v v' t_ns t_md child :
+  enum_member N "TransactionType" "NAMESPACE_REGISTRATION" = Some t_ns -> enum_member N "TransactionType" "MOSAIC_DEFINITION" = Some t_md ->
+  enum_member N "NamespaceRegistrationType" "CHILD" = Some child ->
+  sym_extend N ident v = Ok v' -> vget v "type" = Some (VInt t_ns) ->
+  exists nm parent, vget v "name" = Some (VBytes nm) /\
+    ((vget v "registration_type" = Some (VInt child) /\ vget v "parent_id" = Some (VInt parent)) \/
+     (vget v "registration_type" <> Some (VInt child) /\ parent = 0)) /\
+    v' = vset v "id" (VInt (generate_namespace_id sha3_256 nm parent)).
+Proof.
+  intros E1 E2 E3 H Ht. unfold sym_extend in H. rewrite E1, E2, E3, Ht, Z.eqb_refl in H. change sym_root_parent with 0 in H.
+  apply bind_ok in H. destruct H as [parent [Hp H]]. destruct (vget v "name") as [[|nm| | |]|]; try discriminate. inversion H; subst v'.
+  exists nm, parent. split; [reflexivity|]. split; [|reflexivity].
+  destruct (vget v "registration_type") as [[rt| | | |]|]; try (inversion Hp; right; split; [congruence|reflexivity]).
+  destruct (rt =? child) eqn:Er.
+  - apply Z.eqb_eq in Er. subst rt. destruct (vget v "parent_id") as [[p| | | |]|]; try discriminate. inversion Hp; subst. left. auto.
+  - inversion Hp. right. split; [|reflexivity]. intros Hc. inversion Hc; subst. rewrite Z.eqb_refl in Er. discriminate.
+Qed.
+
+Lemma sym_extend_mosaic N ident v v' t_ns t_md child :
+  enum_member N "TransactionType" "NAMESPACE_REGISTRATION" = Some t_ns -> enum_member N "TransactionType" "MOSAIC_DEFINITION" = Some t_md ->
+  enum_member N "NamespaceRegistrationType" "CHILD" = Some child -> t_md <> t_ns ->
+  sym_extend N ident v = Ok v' -> vget v "type" = Some (VInt t_md) ->
+  exists pk nonce addr, vget v "signer_public_key" = Some (VBytes pk) /\ vget v "nonce" = Some (VInt nonce) /\
+    public_key_to_address_now Symbol ident pk = Ok addr /\ v' = vset v "id" (VInt (generate_mosaic_id sha3_256 addr nonce)).
+Proof.
+  intros E1 E2 E3 Hne H Ht. unfold sym_extend in H. rewrite E1, E2, E3, Ht in H.
+  destruct (t_md =? t_ns) eqn:E; [apply Z.eqb_eq in E; contradiction|]. rewrite Z.eqb_refl in H.
+  destruct (vget v "signer_public_key") as [[|pk| | |]|]; try discriminate. destruct (vget v "nonce") as [[nonce| | | |]|]; try discriminate.
+  apply bind_ok in H. destruct H as [addr [Ha H]]. inversion H. exists pk, nonce, addr. auto.
+Qed.
+
+Section Ids.
+Variable N : netcfg.
+Hypothesis N_symbol : n_flavor N = Symbol.
+Variables t_ns t_md child : Z.
+Hypothesis E_ns : enum_member N "TransactionType" "NAMESPACE_REGISTRATION" = Some t_ns.
+Hypothesis E_md : enum_member N "TransactionType" "MOSAIC_DEFINITION" = Some t_md.
+Hypothesis E_child : enum_member N "NamespaceRegistrationType" "CHILD" = Some child.
+Hypothesis E_ne : t_md <> t_ns.
+
+Lemma create_last_stage emb autosort ident d v' : create N emb autosort ident d = Ok v' -> exists v1, sym_extend N ident v1 = Ok v'.
+Proof. intros H. apply create_stages in H. destruct H as [_ [v1 [_ [_ H]]]]. unfold extend in H. rewrite N_symbol in H. eauto. Qed.
+
+(* the id of a created namespace registration is the hash of its own name under its own parent (root: 0) *)
+Theorem namespace_id_filled emb autosort ident d v' :
+  create N emb autosort ident d = Ok v' -> vget v' "type" = Some (VInt t_ns) -> vget v' "id" <> None ->
+  exists nm parent, vget v' "name" = Some (VBytes nm) /\
+    ((vget v' "registration_type" = Some (VInt child) /\ vget v' "parent_id" = Some (VInt parent)) \/
+     (vget v' "registration_type" <> Some (VInt child) /\ parent = 0)) /\
+    vget v' "id" = Some (VInt (namespace_id_spec sha3_256 nm parent)).
+Proof.
+  intros H Ht Hid. destruct (create_last_stage _ _ _ _ _ H) as [v1 H1].
+  assert (Ho : forall n, n <> "id" -> vget v' n = vget v1 n) by (intros; eapply sym_extend_other; eauto).
+  rewrite (Ho "type") in Ht by discriminate.
+  destruct (sym_extend_namespace _ _ _ _ _ _ _ E_ns E_md E_child H1 Ht) as [nm [parent [Hn [Hp Hv]]]].
+  exists nm, parent. rewrite (Ho "name"), (Ho "registration_type"), (Ho "parent_id") by discriminate.
+  split; [exact Hn|]. split; [exact Hp|]. subst v'.
+  destruct (vget v1 "id") as [old|] eqn:Eo.
+  - rewrite (vget_vset_same v1 "id" _ old Eo). rewrite (namespace_id_def sha3_256 sha3_256_wf). reflexivity.
+  - exfalso. apply Hid. destruct v1; try reflexivity. rewrite vget_assoc in *. unfold vset. rewrite vget_assoc.
+    change (map (fun p : string * value => if String.eqb (fst p) "id" then ("id", VInt (generate_namespace_id sha3_256 nm parent)) else p) fs)
+      with (upd fs "id" (VInt (generate_namespace_id sha3_256 nm parent))).
+    destruct (assoc "id" (upd fs "id" (VInt (generate_namespace_id sha3_256 nm parent)))) eqn:E; [|reflexivity].
+    apply assoc_in in E. apply (in_map fst) in E. rewrite upd_names in E. cbn [fst] in E. apply assoc_none_notin in Eo. contradiction.
+Qed.
+
+(* the id of a created mosaic definition is the hash of its own nonce and of the address of its own signer on the facade's network *)
+Theorem mosaic_id_filled emb autosort ident d v' :
+  create N emb autosort ident d = Ok v' -> vget v' "type" = Some (VInt t_md) -> vget v' "id" <> None ->
+  exists pk nonce addr, vget v' "signer_public_key" = Some (VBytes pk) /\ vget v' "nonce" = Some (VInt nonce) /\
+    public_key_to_address_now Symbol ident pk = Ok addr /\
+    vget v' "id" = Some (VInt (mosaic_id_spec sha3_256 addr nonce)).
+Proof.
+  intros H Ht Hid. destruct (create_last_stage _ _ _ _ _ H) as [v1 H1].
+  assert (Ho : forall n, n <> "id" -> vget v' n = vget v1 n) by (intros; eapply sym_extend_other; eauto).
+  rewrite (Ho "type") in Ht by discriminate.
+  destruct (sym_extend_mosaic _ _ _ _ _ _ _ E_ns E_md E_child E_ne H1 Ht) as [pk [nonce [addr [Hk [Hn [Ha Hv]]]]]].
+  exists pk, nonce, addr. rewrite (Ho "signer_public_key"), (Ho "nonce") by discriminate.
+  split; [exact Hk|]. split; [exact Hn|]. split; [exact Ha|]. subst v'.
+  destruct (vget v1 "id") as [old|] eqn:Eo.
+  - rewrite (vget_vset_same v1 "id" _ old Eo). rewrite (mosaic_id_def sha3_256 sha3_256_wf). reflexivity.
+  - exfalso. apply Hid. destruct v1; try reflexivity. rewrite vget_assoc in *. unfold vset. rewrite vget_assoc.
+    change (map (fun p : string * value => if String.eqb (fst p) "id" then ("id", VInt (generate_mosaic_id sha3_256 addr nonce)) else p) fs)
+      with (upd fs "id" (VInt (generate_mosaic_id sha3_256 addr nonce))).
+    destruct (assoc "id" (upd fs "id" (VInt (generate_mosaic_id sha3_256 addr nonce)))) eqn:E; [|reflexivity].
+    apply assoc_in in E. apply (in_map fst) in E. rewrite upd_names in E. cbn [fst] in E. apply assoc_none_notin in Eo. contradiction.
+Qed.
+End Ids.
+
+(* ---------- composition with the codec ---------- *)
+(* every created transaction is an object of a class the entry point's create_by_name knows *)
+Theorem created_class N emb autosort ident d v : create N emb autosort ident d = Ok v ->
+  exists cls e, v = VStruct cls e /\ In cls (map snd (n_names N emb)).
+Proof.
+  intros H. apply create_stages in H. destruct H as [v0 [v1 [H0 [H1 H2]]]].
+  unfold create_core in H0. apply create_from_factory_ok in H0. destruct H0 as [s [cls [e0 [e' [_ [Hc [_ [_ Hv]]]]]]]]. subst v0.
+  destruct (class_of_type_ok _ _ _ _ Hc) as [s' [name [_ [Hin _]]]].
+  assert (Hcls : exists e1, v1 = VStruct cls e1).
+  { destruct autosort; [|inversion H1; eauto]. unfold type_fuel_d in H1. cbn [sort_value] in H1.
+    destruct (lookup_struct (n_tm N) cls); [|discriminate]. apply bind_ok in H1. destruct H1 as [e1 [_ H1]]. inversion H1. eauto. }
+  destruct Hcls as [e1 ->].
+  assert (Hv : exists e2, v = VStruct cls e2).
+  { unfold extend in H2. destruct (n_flavor N).
+    - apply sym_extend_spec in H2. destruct H2 as [->|[x ->]]; cbn [vset]; eauto.
+    - unfold nem_extend in H2. destruct (enum_member N "TransactionType" "TRANSFER"); [|discriminate].
+      destruct (vget (VStruct cls e1) "type") as [[t| | | |]|]; try (inversion H2; eauto; fail).
+      destruct (t =? z); [|inversion H2; eauto].
+      destruct (vget (VStruct cls e1) "message") as [[| | |mc me|]|]; try discriminate; inversion H2; cbn [vset]; eauto. }
+  destruct Hv as [e2 ->]. exists cls, e2. split; [reflexivity|]. apply in_map_iff. exists (name, cls). auto.
+Qed.
+
+(* ---------- the documented forms, as a check on the regenerated tables ---------- *)
+Fixpoint rule_eqb (a b : rule) : bool :=
+  match a, b with
+  | RPod x, RPod y | REnum x, REnum y | RFlags x, RFlags y | RStruct x, RStruct y => String.eqb x y
+  | RSdk SdkAddress, RSdk SdkAddress | RSdk SdkHash256, RSdk SdkHash256 | RSdk SdkPublicKey, RSdk SdkPublicKey => true
+  | RArray x, RArray y => rule_eqb x y
+  | _, _ => false
+  end.
+(* README / examples: numbers for integer types, names for enums and flags, hex strings for keys and hashes, base32 strings for addresses *)
+Definition documented_rule_of_type (tm : list decl) (t : string) : option rule :=
+  match lookup tm t with
+  | Some (DAlias _ (LInt _) _) => Some (RPod t)
+  | Some (DEnum _ _ _ at_ _) => Some (if is_bitwise at_ then RFlags t else REnum t)
+  | Some (DAlias _ (LBuffer _) _) =>
+    if String.eqb t "PublicKey" || String.eqb t "VotingPublicKey" then Some (RSdk SdkPublicKey)
+    else if String.eqb t "Hash256" then Some (RSdk SdkHash256)
+    else if String.eqb t "Address" || String.eqb t "UnresolvedAddress" then Some (RSdk SdkAddress)
+    else None
+  | _ => None
+  end.
+Definition documented_rule (tm : list decl) (f : field) : option rule :=
+  match f_type f with
+  | FName t => documented_rule_of_type tm t
+  | FArray a => match a_elem a with
+                | ElName t => match documented_rule_of_type tm t with Some r => Some (RArray r) | None => None end
+                | ElInt _ => None
+                end
+  | FInt _ => None
+  end.
+(* TYPE_HINTS as the schema determines them (generator: printers' type_hint) *)
+Definition schema_hint (tm : list decl) (f : field) : option string :=
+  match f_type f with
+  | FInt _ => None
+  | FArray a => match a_elem a with ElName t => Some ("array[" ++ t ++ "]")%string | ElInt _ => Some "bytes_array" end
+  | FName t =>
+    match lookup tm t with
+    | Some (DAlias _ _ _) => Some ("pod:" ++ t)%string
+    | Some (DEnum _ _ _ _ _) => Some ("enum:" ++ t)%string
+    | Some (DStruct _) => Some ("struct:" ++ t)%string
+    | None => None
+    end
+  end.
+Definition opt_string_eqb (a b : option string) : bool :=
+  match a, b with Some x, Some y => String.eqb x y | None, None => true | _, _ => false end.
+(* all classes an entry point can create: known structs whose members have the documented rules and the schema's hints *)
+Definition tables_documented (N : netcfg) : bool :=
+  forallb (fun emb =>
+    forallb (fun p =>
+      match lookup_struct (n_tm N) (snd p) with
+      | Some s =>
+        forallb (fun f =>
+          opt_string_eqb (assoc (py_name (f_name f)) (hints_of N (snd p))) (schema_hint (n_tm N) f)
+          && match documented_rule (n_tm N) f with
+             | Some r => match rule_for N (snd p) (py_name (f_name f)) with Some r' => rule_eqb r r' | None => false end
+             | None => true
+             end) (settable_fields s)
+        && Nat.eqb (length (hints_of N (snd p))) (length (filter (fun f => match schema_hint (n_tm N) f with Some _ => true | None => false end) (settable_fields s)))
+      | None => false
+      end) (n_names N emb)) [false; true].
+(* autodetect() finds exactly the integer aliases (BaseValue subclasses) and the enums (Enum / Flag subclasses) of the schema *)
+Definition autodetect_matches_schema (N : netcfg) : bool :=
+  let expected := flat_map (fun d => match d with
+                                     | DAlias n (LInt _) _ => [(n, "pod")]
+                                     | DEnum n _ _ at_ _ => [(n, if is_bitwise at_ then "flags" else "enum")]
+                                     | _ => []
+                                     end) (n_tm N) in
+  Nat.eqb (length expected) (length (n_autodetect N))
+  && forallb (fun p => match assoc (fst p) (n_autodetect N) with Some k => String.eqb k (snd p) | None => false end) expected.
+
+(* ---------- composite statements used by Props/C10.v ---------- *)
+Lemma forall2_impl {A B} (P Q : A -> B -> Prop) l l' : (forall a b, P a b -> Q a b) -> Forall2 P l l' -> Forall2 Q l l'.
+Proof. intros Hpq H. induction H; constructor; auto. Qed.
+
+Lemma parse_flags_names N cls s x : parse_flags N cls (DStr s) = Ok x ->
+  exists zs, Forall2 (fun n v => (str_is "none" n = true /\ v = 0) \/
+                                 (exists e, In e (enum_values N cls) /\ is_single_bit (ev_value e) = true
+                                            /\ str_is (lower_string (ev_name e)) n = true /\ ev_value e = v)) (split_on 32 s) zs
+             /\ x = DObj OCodec cls (VInt (fold_right Z.lor 0 zs)).
+Proof.
+  intros H. apply parse_flags_str in H. destruct H as [zs [Hf Hx]]. exists zs. split; [|exact Hx].
+  eapply forall2_impl; [|exact Hf]. intros n v Hn. apply flag_by_name_spec. exact Hn.
+Qed.
+
+Lemma parse_pod_spec N cls z x : parse_pod N cls (DInt z) = Ok x ->
+  exists nm i cm, lookup (n_tm N) cls = Some (DAlias nm (LInt i) cm) /\ x = DObj OCodec cls (VInt z)
+                  /\ (In (it_size i) [1; 2; 4; 8] -> 0 <= z < 2 ^ (8 * it_size i)).
+Proof.
+  intros H. apply parse_pod_int in H. destruct H as [nm [i [cm [Hl [Hb Hx]]]]]. exists nm, i, cm. split; [exact Hl|]. split; [exact Hx|].
+  intros Hin. apply base_value_ok_range; assumption.
+Qed.
+
+Lemma parse_sdk_hex_spec N c s x : c <> SdkAddress -> parse_sdk N c (DStr s) = Ok x ->
+  exists b, unhexlify s = Some b /\ Z.of_nat (length b) = sdk_size N c /\ x = DObj OSdk (sdk_name c) (VBytes b)
+            /\ length s = (2 * length b)%nat /\ Forall (fun ch => hex_digit_val ch <> None) s /\ wf_bytes b = true.
+Proof.
+  intros Hc H. apply parse_sdk_hex in H; [|exact Hc]. destruct H as [b [Hu [Hl Hx]]]. exists b. split; [exact Hu|]. split; [exact Hl|]. split; [exact Hx|].
+  apply unhexlify_spec. exact Hu.
 Qed.
